@@ -92,7 +92,7 @@ PROPS["C04"] = dict(
     level="fault_enumeration",
     technique="end-to-end close-event scenario grid (FIN/close/RST by either side, offsets, in-flight data) with an absolute oracle on socket events + history states, and a splice-vs-buffered differential of the logical observations",
     text="Seven close scenarios (client FIN first / origin FIN first / simultaneous / client RST / origin RST / client close with MBs in flight / FIN at offset 0) x listener x connector pairings are run against a splice and a buffered proxy chain; oracle: the peer sees EOF only after all bytes sent before it and within 3 s, the opposite direction still delivers and ends, both sides observe the end after an abort, /api/live no longer lists the tunnel and /api/history shows ClientShutdown/ServerShutdown in the order of the closes and one terminal state; the per-scenario observation vectors of the two I/O modes must be equal.",
-    note="trusted: kernel loopback; 'promptly' restated as 3 s with a 15 s watchdog; python TLS clients cannot half-close so FIN-first-by-client scenarios run on plain listeners only",
+    note="trusted: kernel loopback; 'promptly' restated as 3 s with a 15 s watchdog; python TLS clients cannot half-close so FIN-first-by-client scenarios run on plain listeners only; later additions (back-pressure before a FIN, trickle beyond the idle period, abort with a silent peer, an upstream whose reply and first payload share a segment) are listed in DESIGN.md 3 C04",
     design_ref="DESIGN.md 3 C04",
     steps=[e2e("c04")],
     assumptions=COMMON_ASSUME,
@@ -165,7 +165,7 @@ PROPS["C10"] = dict(
     level="exploration",
     technique="end-to-end monitor: per-datagram unique ids + keystream; exactly-once / right-session / right-destination / right-label multiset checker over what origins and clients received",
     text="UDP paths {SOCKS5 UDP-associate, reverse UDP listener, CONNECT with inline RPFM frames spoken by the harness} x upstream {direct, http hop with inline frames, socks5 hop, QUIC datagrams, QUIC inline} through a two-proxy chain; payload sizes 22..65000 (multi-fragment over QUIC), IPv4 and domain destinations, first and later datagrams of a session in stop-and-wait mode (loss judged), pipelined bursts over concurrent sessions (safety judged), and a client that disappears with a reply in flight and re-binds the same port (bounced reply => receive error on the session socket). Every datagram seen by an origin or a client must be one that was sent, with identical payload, at the addressed origin / owning session, at most once, and replies must be labelled with the replying origin's address.",
-    note="trusted: loopback does not lose paced datagrams (loss is only judged with one datagram in flight per session and large socket buffers); IPv6 destinations need an IPv6 association and are not driven; TPROXY UDP needs netfilter rules",
+    note="trusted: loopback does not lose paced datagrams (loss is only judged with one datagram in flight per session and large socket buffers); IPv6 destinations need an IPv6 association: they are driven only through listeners on ::1 with the direct connector (size-limit block: round trips of 65506 bytes over IPv4 and 65526 over IPv6); TPROXY UDP needs netfilter rules",
     design_ref="DESIGN.md 3 C10",
     steps=[e2e("c10")],
     assumptions=COMMON_ASSUME,
@@ -209,7 +209,7 @@ PROPS["C19"] = dict(
     level="fault_enumeration",
     technique="end-to-end fault injection: kill/stop/restart supervisor + probe streams; bounded-recovery and clean-failure checker on one clock; continuous healthy side traffic",
     text="For every upstream kind (origin via direct, upstream proxy via http, via socks5, via the shared QUIC connection, a load balancer over two) x fault (SIGKILL+restart, SIGTERM+restart, SIGSTOP..SIGCONT, SIGSTOP+SIGKILL+restart) x phase (idle, tunnel open across the outage, request caught during connect) x outage length, each with its own upstream process behind one proxy: once the harness has verified that the upstream accepts connections again, probes routed to it must succeed within 3 attempts (5 for QUIC) and 15 s (50 s for QUIC, whose dead-peer detection is its 30 s idle timeout); a tunnel that was open across a hard outage must end on the client side and be recorded as an error; a request caught by the outage must complete or fail; a probe stream on an unrelated upstream (10 Hz) must never fail or exceed 2 s.",
-    note="trusted: liveness restated as the bounded (attempts, seconds) above; silent drops (SIGSTOP) are judged on recovery only; 'every phase' is three sampled phases",
+    note="trusted: liveness restated as the bounded (attempts, seconds) above; silent drops (SIGSTOP) are judged on recovery only; 'every phase' is three sampled phases plus, for http and socks5 upstreams, death after every prefix of the upstream's handshake reply (FIN and RST)",
     design_ref="DESIGN.md 3 C19",
     steps=[e2e("c19", timeout=(600, 3000))],
     assumptions=COMMON_ASSUME,
